@@ -447,6 +447,7 @@ def run(report, p):
     include_rules(report, p, 'c14', ['R14.1', 'R14.2'], 'flatten and verify -pl do not modify the source history: nothing they reach mutates the file system outside the destination')
     include_rules(report, p, 'c03', ['R3.9'], 'verify -pl and flatten are reached through dispatchers that must call their worker')
     include_rules(report, p, 'c04', ['R4.1'], 'every carry-over call must end in a record: the session appends (or judges) under the recorded-state conditions only, no other condition lets it drop a call')
+    include_rules(report, p, 'c17', ['R17.13'], 'a packing list is verified (`verify -pl`) against the tree of the root it was flattened from: its records are made absolute with that root, not with the folder the packing list lies in')
     report.not_decided += ["equality of the flattened manifest with an independently computed summary", "outcomes of verify -pl on concrete trees", "histories with nested children or renames (outside the property's premise)"]
 
 
